@@ -8,7 +8,7 @@ flag), `small_atof` (comparison of the digits with `b + h`), `parse_mantissa` (u
 digits and one sticky digit), `bhcomp`.
 -/
 namespace SJ.Proofs.LexBh
-open SJ SJ.Gen SJ.Model.Lexical SJ.Spec.Ieee32 SJ.Proofs.LexIeee SJ.Proofs.LexRound
+open SJ SJ.Gen SJ.Model.Lexical SJ.Spec.Ieee SJ.Proofs.Ieee SJ.Proofs.LexRound
 open SJ.Model.Num SJ.Proofs.NumInt SJ.Proofs.LexSplit
 
 /-! ## an integer rounded at a high position: the sticky rule -/
